@@ -472,6 +472,24 @@ impl SATSolver {
             .difference(&self.state_stack[self.state_stack.len() - 2].model)
     }
 
+    /// verification hook: the partial model on top of the decision stack
+    #[cfg(rsdd_verif)]
+    pub fn verif_model(&self) -> &PartialModel {
+        &self.top_state().model
+    }
+
+    /// verification hook: (positive, negative) watch lists, indexed by variable
+    #[cfg(rsdd_verif)]
+    pub fn verif_watches(&self) -> (&[Vec<usize>], &[Vec<usize>]) {
+        (&self.up.watch_list_pos, &self.up.watch_list_neg)
+    }
+
+    /// verification hook: number of states on the decision stack
+    #[cfg(rsdd_verif)]
+    pub fn verif_depth(&self) -> usize {
+        self.state_stack.len()
+    }
+
     pub fn cur_hash(&self) -> u128 {
         self.top_state().hash
     }
